@@ -200,9 +200,10 @@ fn hole_streams_all_eq_contract() {
     let d: (usize, bool) = kani::any();
     let voice = ShimVoice { stream_models: vec![stream(a.0, a.1, a.2, a.3, a.4), stream(c.0, 1, c.1, false, false)] };
     let first = ShimVoice { stream_models: vec![stream(b.0, b.1, b.2, b.3, b.4), stream(d.0, 1, d.1, false, false)] };
+    // the hole is the whole `if` condition, negation included: true iff some stream's metadata differ
     let r: bool = /*@HOLE streams_all_eq@*/;
-    assert!(r == (a == b && c == d));
-    kani::cover!(r);
+    assert!(r == !(a == b && c == d));
+    kani::cover!(!r);
     kani::cover!(a == b && c != d);
     std::mem::forget(voice);
     std::mem::forget(first);
